@@ -269,6 +269,14 @@ impl<F: Filter, S: PtpInstanceStateMutex> PtpInstance<F, S> {
     pub fn set_clock_quality(&self, clock_quality: ClockQuality) {
         self.state.with_mut(|state| {
             state.default_ds.clock_quality = clock_quality;
+            // While the instance is its own grandmaster the parent data set
+            // describes the local clock. Without this the old quality would be
+            // announced until a BMCA run happens to yield decision code M1/M2,
+            // which is not the case for ports that became master through the
+            // announce receipt timeout.
+            if state.parent_ds.grandmaster_identity == state.default_ds.clock_identity {
+                state.parent_ds.grandmaster_clock_quality = clock_quality;
+            }
         });
     }
 
